@@ -101,7 +101,7 @@ def run(ctx):
         if r.check('thread_main:row', len(okr) == 1, site):
             eff = okr[0].effects
             r.check('channel-limit', 'io_loop::channel_slots::ChannelSlots::set_channel_max(self.inner.chan_slots, %s.0.channel_max)' % HSK in eff, site, built=[e for e in eff if 'set_channel_max' in e])
-            r.check('frame_max-handover', 'crossbeam_channel::Sender::send(handshake_done_tx, ((%s.0.frame_max as usize), %s.1))' % (HSK, HSK) in eff, site, built=[e for e in eff if 'Sender::send' in e])
+            r.check('frame_max-handover', 'crossbeam_channel::Sender::send(handshake_done_tx, (%s.0.frame_max, %s.1))' % (HSK, HSK) in eff, site, built=[e for e in eff if 'Sender::send' in e])
         # client side: Channel0Handle::new turns it into the per-frame payload limit; every ChannelHandle copies it
         rows = P.table(ctx, 'io_loop::channel_handle::Channel0Handle::new', ['handle', 'frame_max'])
         site = ctx.site('io_loop::channel_handle::Channel0Handle::new')
